@@ -266,7 +266,20 @@ pub fn check_lattice<D: Distance>(
         (usize::MAX / n_trees).saturating_add(1),
         usize::MAX,
     ];
-    let ks = [None, Some(1usize), Some(2), Some(5), Some((n / 2).max(1)), Some(n), Some(10 * n), Some(usize::MAX)];
+    // a budget of 2^32 or more exceeds the number of nodes any forest can have (node ids are u32): it is unlimited
+    const BEYOND_ANY_FOREST: usize = 1 << 32;
+    let ks = [
+        None,
+        Some(1usize),
+        Some(2),
+        Some(5),
+        Some((n / 2).max(1)),
+        Some(n),
+        Some(10 * n),
+        Some(BEYOND_ANY_FOREST),
+        Some(BEYOND_ANY_FOREST + 1),
+        Some(usize::MAX),
+    ];
     let overs = [None, Some(1usize), Some(2), Some(7), Some(usize::MAX)];
 
     let qvs = query_vectors(isp, m, qseed ^ 0x77, 1);
@@ -300,7 +313,7 @@ pub fn check_lattice<D: Distance>(
             let q = Q { count, search_k: k, oversampling: o, candidates: c, by: by.clone() };
             let res = exec(&q, st)?;
             let f = filter_set(c);
-            let exhaustive = k == Some(usize::MAX);
+            let exhaustive = k.is_some_and(|k| k >= BEYOND_ANY_FOREST);
             if let Err(e) = check_result(&cx, &qobs, count, f.as_ref(), &res, exhaustive) {
                 return violation("lattice:wellformed", format!("{} on {n} items: {e}", q.render()));
             }
@@ -315,13 +328,27 @@ pub fn check_lattice<D: Distance>(
             let c = cands[[0usize, 0, 3, 5, 6][mix.below(5) as usize]];
             let f = filter_set(c);
             let mut prev: Option<(usize, Vec<(u32, f32)>)> = None;
-            let chain = [1usize, 2, 3, 5, (n / 2).max(6), n.max(7), 10 * n + 8, usize::MAX];
+            let chain = [
+                1usize,
+                2,
+                3,
+                5,
+                (n / 2).max(6),
+                n.max(7),
+                10 * n + 8,
+                BEYOND_ANY_FOREST - 1,
+                BEYOND_ANY_FOREST,
+                BEYOND_ANY_FOREST + 1,
+                BEYOND_ANY_FOREST + 40,
+                1 << 40,
+                usize::MAX,
+            ];
             let mut exhaustive_res = None;
             let mut results = Vec::new();
             for k in chain {
                 let q = Q { count, search_k: Some(k), oversampling: o, candidates: c, by: by.clone() };
                 let res = exec(&q, st)?;
-                if let Err(e) = check_result(&cx, &qobs, count, f.as_ref(), &res, k == usize::MAX) {
+                if let Err(e) = check_result(&cx, &qobs, count, f.as_ref(), &res, k >= BEYOND_ANY_FOREST) {
                     return violation("lattice:wellformed", format!("{} on {n} items: {e}", q.render()));
                 }
                 if let Some((pk, pres)) = &prev {
